@@ -1,7 +1,7 @@
-\* exhaustive: chains of <= 2 blocks of 0..3 transactions, <= 2 RevertHead, every re-inclusion pattern
+\* the repaired design of a reader-level memo of the su lookups: dropped by every Store / RevertHead, all properties hold
 CONSTANTS
   MaxBlocks = 2
-  MaxSize = 3
+  MaxSize = 2
   Lens = {1}
   Kinds <- KindsOne
   EvCounts = {2}
@@ -10,8 +10,8 @@ CONSTANTS
   TxSectionEndsAtReceipts = TRUE
   HashIndexExact = TRUE
   RevertDropsIndexes = TRUE
-  MaxReverts = 2
-  MemoFamilies = {}
+  MaxReverts = 1
+  MemoFamilies = {"su"}
   MemoPurged = TRUE
 INIT Init
 NEXT NextR
